@@ -218,6 +218,14 @@ def merge_iterator_rule(F, rep):
             n += 1
             if s.rv_kind() == "agg" and s.rv[1].get("variant") == "Some":
                 continue
+            if s.rv_kind() == "use" and Operand(s.rv[1]).place is not None:
+                # a value passed on through a local: fine when it is prior.next()'s own result or a Some(..) built above
+                srcs = f.backward_sources(Operand(s.rv[1]).place.local, through_calls=())[1]
+                good = [1 for k, x in srcs if (k == "call" and x.is_("Iterator::next") and "field:prior" in f.origins(x.args[0], through_calls=()))
+                        or (k == "stmt" and x.rv_kind() == "agg" and x.rv[1].get("variant") == "Some")]
+                other = [1 for k, x in srcs if k == "call" and not (x.is_("Iterator::next") and "field:prior" in f.origins(x.args[0], through_calls=()))]
+                if good and not other:
+                    continue
             bad.append("%s:%d (%s)" % (f.file, s.line, s.rv_kind()))
     for c in f.calls:
         if c.dest is not None and c.dest.local == 0 and not c.dest.proj:
